@@ -205,13 +205,14 @@ theorem map_sumPolys (q n : Nat) (polys : List Poly) (h : ∀ a ∈ polys, a.len
   exact this
 
 /-- **one lane of the real sum-of-products pipeline** -/
-theorem laneSumK_real (P : PrimeSet) (k j h : Nat) (g : LaneFwd P k) (gi : LaneInv P k) (hj1 : 1 ≤ j) (hj : j ≤ 16)
+theorem laneSumK_slots (P : PrimeSet) (k j h : Nat) (g : LaneFwd P k) (gi : LaneInv P k) (hj1 : 1 ≤ j) (hj : j ≤ 16)
     (hh : 16 ≤ h) (hh2 : h < 32) (t ti : TableK) (ht : nttTableK P k (2 ^ j) = .ok t) (hti : inttTableK P k (2 ^ j) = .ok ti)
     (rows : List (Poly × Poly)) (hell : rows.length < 10000)
     (hlen : ∀ r ∈ rows, r.1.length = 2 ^ j ∧ r.2.length = 2 ^ j)
     (hrng : ∀ r ∈ rows, (∀ c ∈ r.1, -(2 ^ 63) ≤ c ∧ c < 2 ^ 63) ∧ (∀ c ∈ r.2, -(2 ^ 63) ≤ c ∧ c < 2 ^ 63)) :
     (laneSumK (P.qs.getD k 1) h (2 ^ j) (nttK t) (inttK ti) rows).map (cz (P.qs.getD k 1)) =
-      (Hal.sumPolys (2 ^ j) (rows.map (fun r => Hal.negMul r.1 r.2))).map (ci (P.qs.getD k 1)) := by
+      inttM (omegaInvZ P k j) (nInvZ P k j) j (psum (2 ^ j) (rows.map (fun r =>
+        mulL (nttM (omegaZ P k j) j (r.2.map (ci (P.qs.getD k 1)))) (nttM (omegaZ P k j) j (r.1.map (ci (P.qs.getD k 1))))))) := by
   set q := P.qs.getD k 1 with hq
   set n := 2 ^ j with hn
   have hqg := g.q_gt
@@ -298,23 +299,31 @@ theorem laneSumK_real (P : PrimeSet) (k j h : Nat) (g : LaneFwd P k) (gi : LaneI
   unfold laneSumK
   simp only []
   rw [ei, hS]
-  -- Σ ntt(x)⊙ntt(p) = ntt (Σ p ⋆ x)
-  have hprod : rows.map (fun r => mulL (nttM (omegaZ P k j) j (r.2.map (ci q))) (nttM (omegaZ P k j) j (r.1.map (ci q)))) =
-      (rows.map (fun r => negMulR (r.1.map (ci q)) (r.2.map (ci q)))).map (nttM (omegaZ P k j) j) := by
+
+/-- finishing step: `Σ_j ntt(u_j) ⊙ ntt(v_j)` is the transform of `Σ_j u_j ⋆ v_j`, which `intt` returns -/
+theorem inttM_psum_products (P : PrimeSet) (k j : Nat) (g : LaneFwd P k) (gi : LaneInv P k) (hj : j ≤ 16)
+    (pairs : List (Poly × Poly)) (hlen : ∀ r ∈ pairs, r.1.length = 2 ^ j ∧ r.2.length = 2 ^ j) :
+    inttM (omegaInvZ P k j) (nInvZ P k j) j (psum (2 ^ j) (pairs.map (fun r =>
+      mulL (nttM (omegaZ P k j) j (r.1.map (ci (P.qs.getD k 1)))) (nttM (omegaZ P k j) j (r.2.map (ci (P.qs.getD k 1))))))) =
+    (Hal.sumPolys (2 ^ j) (pairs.map (fun r => Hal.negMul r.1 r.2))).map (ci (P.qs.getD k 1)) := by
+  set q := P.qs.getD k 1 with hq
+  have hω := omegaZ_pow P k j g hj
+  have hprod : pairs.map (fun r => mulL (nttM (omegaZ P k j) j (r.1.map (ci q))) (nttM (omegaZ P k j) j (r.2.map (ci q)))) =
+      (pairs.map (fun r => negMulR (r.1.map (ci q)) (r.2.map (ci q)))).map (nttM (omegaZ P k j) j) := by
     rw [List.map_map]
     apply List.map_congr_left
     intro r hr
     obtain ⟨l1, l2⟩ := hlen r hr
     simp only [Function.comp]
-    rw [mulL_comm, ← nttM_mul _ j _ _ (by simpa using l1) (by simpa using l2) hω]
-  have hnl : ∀ l ∈ rows.map (fun r => negMulR (r.1.map (ci q)) (r.2.map (ci q))), l.length = 2 ^ j := by
+    rw [← nttM_mul _ j _ _ (by simpa using l1) (by simpa using l2) hω]
+  have hnl : ∀ l ∈ pairs.map (fun r => negMulR (r.1.map (ci q)) (r.2.map (ci q))), l.length = 2 ^ j := by
     intro l hl
     simp only [List.mem_map] at hl
     obtain ⟨r, hr, rfl⟩ := hl
     rw [negMulR_length]; simpa using (hlen r hr).2
   rw [hprod, ← nttM_psum _ j hω _ hnl,
     inttM_nttM _ _ _ j (omegaInv_spec P k j g gi hj).1 (nInv_spec P k j g gi hj).1 _ (psum_length _ _ hnl)]
-  rw [map_sumPolys q n _ (by
+  rw [map_sumPolys q (2 ^ j) _ (by
     intro a ha
     simp only [List.mem_map] at ha
     obtain ⟨r, hr, rfl⟩ := ha
@@ -325,6 +334,65 @@ theorem laneSumK_real (P : PrimeSet) (k j h : Nat) (g : LaneFwd P k) (gi : LaneI
   intro r _
   simp only [Function.comp]
   exact (map_negMul q r.1 r.2).symm
+
+/-- **one lane of the real sum-of-products pipeline**, both orientations of the (commutative) product:
+`Σ_j p_j ⋆ x_j` and `Σ_j x_j ⋆ p_j` -/
+theorem laneSumK_real (P : PrimeSet) (k j h : Nat) (g : LaneFwd P k) (gi : LaneInv P k) (hj1 : 1 ≤ j) (hj : j ≤ 16)
+    (hh : 16 ≤ h) (hh2 : h < 32) (t ti : TableK) (ht : nttTableK P k (2 ^ j) = .ok t) (hti : inttTableK P k (2 ^ j) = .ok ti)
+    (rows : List (Poly × Poly)) (hell : rows.length < 10000)
+    (hlen : ∀ r ∈ rows, r.1.length = 2 ^ j ∧ r.2.length = 2 ^ j)
+    (hrng : ∀ r ∈ rows, (∀ c ∈ r.1, -(2 ^ 63) ≤ c ∧ c < 2 ^ 63) ∧ (∀ c ∈ r.2, -(2 ^ 63) ≤ c ∧ c < 2 ^ 63)) :
+    (laneSumK (P.qs.getD k 1) h (2 ^ j) (nttK t) (inttK ti) rows).map (cz (P.qs.getD k 1)) =
+      (Hal.sumPolys (2 ^ j) (rows.map (fun r => Hal.negMul r.1 r.2))).map (ci (P.qs.getD k 1)) ∧
+    (laneSumK (P.qs.getD k 1) h (2 ^ j) (nttK t) (inttK ti) rows).map (cz (P.qs.getD k 1)) =
+      (Hal.sumPolys (2 ^ j) (rows.map (fun r => Hal.negMul r.2 r.1))).map (ci (P.qs.getD k 1)) := by
+  have e := laneSumK_slots P k j h g gi hj1 hj hh hh2 t ti ht hti rows hell hlen hrng
+  refine ⟨?_, ?_⟩
+  · rw [e]
+    have := inttM_psum_products P k j g gi hj rows hlen
+    rw [← this]
+    congr 2
+    apply List.map_congr_left
+    intro r _
+    exact mulL_comm _ _
+  · rw [e]
+    have := inttM_psum_products P k j g gi hj (rows.map (fun r => (r.2, r.1))) (by
+      intro r hr
+      simp only [List.mem_map] at hr
+      obtain ⟨r', hr', rfl⟩ := hr
+      exact ⟨(hlen r' hr').2, (hlen r' hr').1⟩)
+    simp only [List.map_map, Function.comp] at this
+    exact this
+
+/-- CRT step shared by both orientations -/
+theorem vmpPipeline_of_lanes (P : PrimeSet) (g : P.Good) (j : Nat) (rows : List (Poly × Poly)) (tgt : Poly) (hl : tgt.length = 2 ^ j)
+    (lane : ∀ k, k < 4 → (laneSumK (P.qs.getD k 1) (bbcH P) (2 ^ j) (realNtt P (2 ^ j) k) (realIntt P (2 ^ j) k) rows).map (cz (P.qs.getD k 1)) =
+      tgt.map (ci (P.qs.getD k 1)))
+    (hbound : ∀ i, i < 2 ^ j → -(((bigQ P : Int) - 1) / 2) ≤ tgt.getD i 0 ∧ tgt.getD i 0 ≤ ((bigQ P : Int) - 1) / 2) :
+    vmpPipeline P (2 ^ j) rows = tgt := by
+  unfold vmpPipeline
+  simp only []
+  apply List.ext_getElem
+  · simp [hl]
+  · intro i h1 h2
+    simp only [List.length_map, List.length_range] at h1
+    rw [List.getElem_map, List.getElem_range]
+    have hb := hbound i h1
+    have e : tgt[i] = tgt.getD i 0 := by
+      rw [List.getD_eq_getElem?_getD, List.getElem?_eq_getElem h2]; rfl
+    rw [e]
+    exact bToZnx128Core_exact P g _ _ _ _ _ hb.1 hb.2
+      (getD_of_map_eq _ _ _ (lane 0 (by omega)) i (by omega)) (getD_of_map_eq _ _ _ (lane 1 (by omega)) i (by omega))
+      (getD_of_map_eq _ _ _ (lane 2 (by omega)) i (by omega)) (getD_of_map_eq _ _ _ (lane 3 (by omega)) i (by omega))
+
+theorem sumPolys_length (q : Nat) (n : Nat) (polys : List Poly) (h : ∀ a ∈ polys, a.length = n) : (Hal.sumPolys n polys).length = n := by
+  have h1 := congrArg List.length (map_sumPolys q n polys h)
+  rw [List.length_map, psum_length _ _ (by
+    intro l hl
+    simp only [List.mem_map] at hl
+    obtain ⟨a, ha, rfl⟩ := hl
+    rw [List.length_map]; exact h a ha)] at h1
+  exact h1
 
 /-- **`vmp` on the NTT120 back end is exact below `Q/2`**: for `n = 2^j`, `1 ≤ j ≤ 16`, fewer than
 10 000 rows of `i64` limbs, if every coefficient of the exact sum `Σ_j p_j ⋆ x_j` is at most `(Q−1)/2` in
@@ -338,43 +406,38 @@ theorem vmpPipeline_exact (P : PrimeSet) (g : P.Good) (ng : P.NttGood) (j : Nat)
       (Hal.sumPolys (2 ^ j) (rows.map (fun r => Hal.negMul r.1 r.2))).getD i 0 ≤ ((bigQ P : Int) - 1) / 2) :
     vmpPipeline P (2 ^ j) rows = Hal.sumPolys (2 ^ j) (rows.map (fun r => Hal.negMul r.1 r.2)) := by
   obtain ⟨hh, hh2⟩ := bbcH_range P
-  set tgt := Hal.sumPolys (2 ^ j) (rows.map (fun r => Hal.negMul r.1 r.2)) with htgt
-  have htl : ∀ q : Nat, (tgt.map (ci q)).length = tgt.length := fun q => by simp
-  have lane : ∀ k, k < 4 → (tgt.length = 2 ^ j) ∧ ∀ i, i < 2 ^ j →
-      ((laneSumK (P.qs.getD k 1) (bbcH P) (2 ^ j) (realNtt P (2 ^ j) k) (realIntt P (2 ^ j) k) rows).getD i 0 : Int) ≡
-        tgt.getD i 0 [ZMOD (P.qs.getD k 1 : Nat)] := by
-    intro k hk
-    obtain ⟨gf, gi⟩ := ng k hk
-    obtain ⟨t, ht⟩ := nttTableK_ok P k j gf hj1 hj
-    obtain ⟨ti, hti⟩ := inttTableK_ok P k j gi hj1 hj
-    rw [realNtt_eq P _ k t ht, realIntt_eq P _ k ti hti]
-    have e := laneSumK_real P k j (bbcH P) gf gi hj1 hj hh hh2 t ti ht hti rows hell hlen hrng
-    have hl : tgt.length = 2 ^ j := by
-      have h1 := congrArg List.length (map_sumPolys (P.qs.getD k 1) (2 ^ j) (rows.map (fun r => Hal.negMul r.1 r.2)) (by
-        intro a ha
-        simp only [List.mem_map] at ha
-        obtain ⟨r, hr, rfl⟩ := ha
-        rw [Hal.negMul_length]; exact (hlen r hr).2))
-      rw [List.length_map, psum_length _ _ (by
-        intro l hl
-        simp only [List.mem_map] at hl
-        obtain ⟨a, ⟨r, hr, rfl⟩, rfl⟩ := hl
-        rw [List.length_map, Hal.negMul_length]; exact (hlen r hr).2)] at h1
-      exact h1
-    exact ⟨hl, fun i hi => getD_of_map_eq _ _ _ e i (by rw [hl]; exact hi)⟩
-  have hl := (lane 0 (by omega)).1
-  unfold vmpPipeline
-  simp only []
-  apply List.ext_getElem
-  · simp [hl]
-  · intro i h1 h2
-    simp only [List.length_map, List.length_range] at h1
-    rw [List.getElem_map, List.getElem_range]
-    have hb := hbound i h1
-    have e : tgt[i] = tgt.getD i 0 := by
-      rw [List.getD_eq_getElem?_getD, List.getElem?_eq_getElem h2]; rfl
-    rw [e]
-    exact bToZnx128Core_exact P g _ _ _ _ _ hb.1 hb.2 ((lane 0 (by omega)).2 i h1) ((lane 1 (by omega)).2 i h1)
-      ((lane 2 (by omega)).2 i h1) ((lane 3 (by omega)).2 i h1)
+  apply vmpPipeline_of_lanes P g j rows _ (sumPolys_length 2 _ _ (by
+    intro a ha
+    simp only [List.mem_map] at ha
+    obtain ⟨r, hr, rfl⟩ := ha
+    rw [Hal.negMul_length]; exact (hlen r hr).2)) _ hbound
+  intro k hk
+  obtain ⟨gf, gi⟩ := ng k hk
+  obtain ⟨t, ht⟩ := nttTableK_ok P k j gf hj1 hj
+  obtain ⟨ti, hti⟩ := inttTableK_ok P k j gi hj1 hj
+  rw [realNtt_eq P _ k t ht, realIntt_eq P _ k ti hti]
+  exact (laneSumK_real P k j (bbcH P) gf gi hj1 hj hh hh2 t ti ht hti rows hell hlen hrng).1
+
+/-- the same with the product written input-limb first (`Σ_j x_j ⋆ p_j`, the order of `Hal.vmpFlat`) -/
+theorem vmpPipeline_exact_swapped (P : PrimeSet) (g : P.Good) (ng : P.NttGood) (j : Nat) (hj1 : 1 ≤ j) (hj : j ≤ 16)
+    (rows : List (Poly × Poly)) (hell : rows.length < 10000)
+    (hlen : ∀ r ∈ rows, r.1.length = 2 ^ j ∧ r.2.length = 2 ^ j)
+    (hrng : ∀ r ∈ rows, (∀ c ∈ r.1, -(2 ^ 63) ≤ c ∧ c < 2 ^ 63) ∧ (∀ c ∈ r.2, -(2 ^ 63) ≤ c ∧ c < 2 ^ 63))
+    (hbound : ∀ i, i < 2 ^ j →
+      -(((bigQ P : Int) - 1) / 2) ≤ (Hal.sumPolys (2 ^ j) (rows.map (fun r => Hal.negMul r.2 r.1))).getD i 0 ∧
+      (Hal.sumPolys (2 ^ j) (rows.map (fun r => Hal.negMul r.2 r.1))).getD i 0 ≤ ((bigQ P : Int) - 1) / 2) :
+    vmpPipeline P (2 ^ j) rows = Hal.sumPolys (2 ^ j) (rows.map (fun r => Hal.negMul r.2 r.1)) := by
+  obtain ⟨hh, hh2⟩ := bbcH_range P
+  apply vmpPipeline_of_lanes P g j rows _ (sumPolys_length 2 _ _ (by
+    intro a ha
+    simp only [List.mem_map] at ha
+    obtain ⟨r, hr, rfl⟩ := ha
+    rw [Hal.negMul_length]; exact (hlen r hr).1)) _ hbound
+  intro k hk
+  obtain ⟨gf, gi⟩ := ng k hk
+  obtain ⟨t, ht⟩ := nttTableK_ok P k j gf hj1 hj
+  obtain ⟨ti, hti⟩ := inttTableK_ok P k j gi hj1 hj
+  rw [realNtt_eq P _ k t ht, realIntt_eq P _ k ti hti]
+  exact (laneSumK_real P k j (bbcH P) gf gi hj1 hj hh hh2 t ti ht hti rows hell hlen hrng).2
 
 end Ntt120
